@@ -177,6 +177,11 @@ func (c *Chunker) Next() (uint64, []byte, error) {
 	// Position the pointer at the minimum size
 	var pos = int(c.min)
 
+	// With min == max there is no room to look for a boundary, cut at max
+	if pos >= m {
+		return c.split(pos, nil)
+	}
+
 	var out, in byte
 	for {
 		// Add a byte to the hash
